@@ -359,6 +359,11 @@ class _Functional(ast.NodeTransformer):
 
     def visit_Call(self, node):
         self.generic_visit(node)
+        # operator.attrgetter("a")(x)  ->  x.a
+        if isinstance(node.func, ast.Call) and ast.unparse(node.func.func) in ("attrgetter", "operator.attrgetter") and len(node.func.args) == 1 \
+                and isinstance(node.func.args[0], ast.Constant) and isinstance(node.func.args[0].value, str) and node.func.args[0].value.isidentifier() \
+                and len(node.args) == 1 and not node.keywords:
+            return ast.copy_location(ast.Attribute(value=node.args[0], attr=node.func.args[0].value, ctx=ast.Load()), node)
         d = ast.unparse(node.func)
         if d in ("map", "filter", "itertools.filterfalse", "filterfalse") and len(node.args) == 2 and not node.keywords:
             _Functional.n += 1
@@ -501,3 +506,8 @@ def lift_generators(fnode):
         U().visit(fnode)
         ast.fix_missing_locations(fnode)
     return fnode
+
+
+def simplify_functional(e):
+    """expression with map/filter/attrgetter idioms rewritten (see _Functional)"""
+    return _Functional().visit(e)
